@@ -1225,7 +1225,7 @@ return 1;""",
             append_format(
                 PY_code,
                 "if (args != {nullptr}) SH_nargs += PyTuple_Size(args);\n"
-                "if (kwds != {nullptr}) SH_nargs += PyDict_Size(args);",
+                "if (kwds != {nullptr}) SH_nargs += PyDict_Size(kwds);",
                 fmt
             )
 
@@ -2450,7 +2450,7 @@ return 1;""",
             append_format(
                 body,
                 "if (args != {nullptr}) SHT_nargs += PyTuple_Size(args);\n"
-                "if (kwds != {nullptr}) SHT_nargs += PyDict_Size(args);",
+                "if (kwds != {nullptr}) SHT_nargs += PyDict_Size(kwds);",
                 fmt
             )
             if is_ctor:
